@@ -111,6 +111,26 @@ fn c20_clmul128_karatsuba_basis_times_full() {
     kani::cover!(i == 127 && b >> 127 == 1, "clmul128_top_reachable");
 }
 
+/// Karatsuba recombination (clmul64 replaced by its definition) on two arbitrary 8-bit windows
+/// at arbitrary positions: catches non-bilinear recombinations (e.g. OR instead of XOR on a
+/// special-operand fast path) that basis x full cannot see.
+#[kani::proof]
+#[kani::unwind(130)]
+#[kani::stub(scalar::clmul64, ref_clmul64)]
+fn c20_clmul128_karatsuba_windows8() {
+    let wa: u8 = kani::any();
+    let wb: u8 = kani::any();
+    let sa: u32 = kani::any();
+    let sb: u32 = kani::any();
+    kani::assume(sa <= 120 && sb <= 120);
+    let a = (wa as u128) << sa;
+    let b = (wb as u128) << sb;
+    let (lo, hi) = scalar::clmul128(a, b);
+    let (rl, rh) = ref_clmul128(a, b);
+    assert!(lo == rl && hi == rh, "C20:scalar::clmul128==schoolbook(window8 x window8, any positions)");
+    kani::cover!(sa == 120 && sb == 120 && wa == 0xff, "clmul128_windows8_top_reachable");
+}
+
 /// scalar::clmul128 with the *real* clmul64: both operands 12-bit windows at any positions.
 #[kani::proof]
 #[kani::unwind(130)]
